@@ -1185,6 +1185,14 @@ def impose_unique(seq=None):
 
 from numpy import array, intersect1d, inf, isnan, isfinite, where, choose, clip as _clip
 from numpy.random import uniform, choice
+
+def _holds(dtype, values):
+    """True if an array of the given dtype stores the values unchanged"""
+    import warnings
+    from numpy import errstate
+    with warnings.catch_warnings(), errstate(all='ignore'):
+        warnings.simplefilter('ignore') # (a cast may drop the imaginary part)
+        return bool((values.astype(dtype) == values).all())
 def bounded(seq, bounds, index=None, clip=True, nearest=True):
     """bound a sequence by bounds = [min,max]
 
@@ -1230,8 +1238,8 @@ def bounded(seq, bounds, index=None, clip=True, nearest=True):
         at = intersect1d(at, index)
     if not len(at): return seq
     if seq.dtype.kind in 'iub': # (integers can't hold a fraction)
-        ends = bounds[isfinite(bounds)]
-        if not (clip and (ends == ends.round()).all()): seq = seq.astype(float)
+        if not (clip and _holds(seq.dtype, bounds[isfinite(bounds)])):
+            seq = seq.astype(float)
     if clip:
         if nearest: # clip at closest bounds
             seq_at = seq[at]
@@ -1726,8 +1734,8 @@ Examples:
         def func(x, *args, **kwds):
             xtype = type(x)
             x = asarray(list(x)) #XXX: faster to use array(x, copy=True) ?
-            _t = asarray(target, dtype=float) # (integers can't hold a fraction)
-            if x.dtype.kind in 'iub' and not (_t - _t.round() == 0).all():
+            _t = asarray(target)
+            if not _holds(x.dtype, _t): # (integers can't hold a fraction)
                 x = x.astype(result_type(x, _t))
             n = len(x) # only use the indices (and their targets) that are in range
             if _t.size > 1: # one target per index
